@@ -4,26 +4,30 @@ SPEC = dict(
     rule="generated source logs of two source clusters (consecutive indexes, non-decreasing terms, 0-3 non-idempotent commands per entry: INCR, INCRBY, APPEND, LPUSH, RPUSH, HINCRBY, SADD, SPOP, ZINCRBY; empty entries) framed as the source cluster's log syncer frames them, delivered to the real Server.ApplyRaftReqs the way a sender does after interruptions: batches start at or before the synced position + 1, with stale re-sends, duplicates and older entries mixed in, injected propose failures followed by retries; "
          "between deliveries raft snapshots of the receiver (KVNode.GetSnapshot), restarts from the latest snapshot (RestoreFromSnapshot + replay of the receiver's own log tail as 'replaying') and follower replicas that replay the receiver's log. "
          "A second sub-run applies the receiver's own log as it looks when duplicates raced past the receive-time filter (copies of already contained entries directly in the log), where only the apply-time filter protects. Oracle after every delivery with p = reported synced index: receiver data == lib/model applied once to source[1..p]; p monotone; p reaches the end of every delivery that reported success; per-cluster independence; after restart positions and data unchanged; follower == leader. "
-         "non-trivial = a non-idempotent entry re-sent after it was applied, with a snapshot/restart between its first and second delivery.",
+         "A third sub-run puts the real sender in front: the source cluster's log syncer state machine (logSyncerSM + RemoteLogSender) is fed a generated source log over 1-3 learner incarnations (each replays from an index at or before the receiver's position + 1, with a drawn number of entries queued before it learns the remote position, transport faults, lost replies, dropped proposals, incarnations stopped with entries queued) and talks loopback gRPC to the real receiver; at every quiescent point the receiver's position equals what the sender reports as synced and the data is the source prefix applied once. "
+         "non-trivial = a non-idempotent entry re-sent after it was applied, with a snapshot/restart between its first and second delivery (sender sub-run: a first batch that straddles the receiver's synced position).",
     assumptions=[
         "the receiving cluster runs in syncer-only mode (node.SetSyncerOnly(true)), as a replication target does; the conflict check against local client writes is not exercised",
-        "a correct sender never skips ahead of the receiver's synced position + 1 (the receiver only logs a warning for gaps), so gaps are not generated",
+        "a correct sender never skips ahead of the receiver's synced position + 1 (the receiver only logs a warning for gaps), so gaps are not generated in the receiver sub-runs; the sender sub-run checks that the real sender keeps that promise when its learner restarts from an index at or before the receiver's position + 1",
+        "sender sub-run: batch boundaries after the first batch depend on goroutine scheduling (the send loop drains whatever is queued); the oracle holds for every batching, the recorded delivery trace is the reproducible unit",
         "the remote snapshot transfer path (NotifyTransferSnap / ApplyRemoteSnap, rsync between clusters) is not driven",
         "restart = RestoreFromSnapshot on the same in-process node + replay of its own log tail; process restart with WAL is C06's subject",
     ],
     quick=[
         dict(name="replay", pkg="c19_crosscluster", test="TestCrossClusterReplay", checks=700, shards=6),
         dict(name="applydedupe", pkg="c19_crosscluster", test="TestApplyTimeDedupe", checks=1500, shards=2),
+        dict(name="sender", pkg="c19_crosscluster", test="TestSenderReceiver", checks=150, shards=6),
     ],
     thorough=[
         dict(name="replay", pkg="c19_crosscluster", test="TestCrossClusterReplay", checks=15000, shards=12),
         dict(name="applydedupe", pkg="c19_crosscluster", test="TestApplyTimeDedupe", checks=40000, shards=4),
+        dict(name="sender", pkg="c19_crosscluster", test="TestSenderReceiver", checks=2500, shards=8),
     ],
 )
 TEXT = dict(
     engine="simkv",
     design_ref="DESIGN.md §4 C19",
-    technique="model-based property testing (rapid): generated delivery sequences with duplicates, stale re-sends, injected propose faults, snapshots, restarts and follower replay against the real gRPC handler and apply path; oracle = reference model applied once to the source prefix up to the reported synced position",
+    technique="model-based property testing (rapid): generated delivery sequences with duplicates, stale re-sends, injected propose faults, snapshots, restarts and follower replay against the real gRPC handler and apply path, plus generated learner-restart / fault schedules through the real sender (logSyncerSM) over loopback gRPC; oracle = reference model applied once to the source prefix up to the reported synced position",
     level_text="Generated-input exploration through the real ApplyRaftReqs handler and the node's applyEntries with a fake raft that can drop proposals. The oracle ties the data to the reported synced position after every delivery.",
     level_note="Trusted: lib/model for the nine command kinds used; the framing of source entries (copied from logSyncerSM.ApplyRaftRequest); the fake raft (commit = apply; a dropped proposal fails like raft's drop).",
 )
